@@ -161,7 +161,36 @@ fn ser_nested(inner_fails: bool) {
     crate::reach_end!();
 }
 
+/// the same with shared-memory regions around the nested send (the region side table is saved and
+/// restored separately from the channel one)
+fn ser_nested_regions(inner_fails: bool) {
+    start();
+    let (tx, rx) = ipc::channel::<(IpcSharedMemory, Nested, IpcSharedMemory)>().unwrap();
+    let (via_tx, via_rx) = ipc::channel::<Inner>().unwrap();
+    let (c_tx, c_rx) = ipc::channel::<u8>().unwrap();
+    let ra = IpcSharedMemory::from_bytes(&[1u8]);
+    let rb = IpcSharedMemory::from_bytes(&[2u8, 2]);
+    env::set_enobufs_mask(0);
+    tx.send((ra.clone(), Nested { via: via_tx.clone(), payload: c_tx.clone(), inner_fails }, rb.clone())).unwrap();
+    let n = env::att_count();
+    assert!(n == if inner_fails { 1 } else { 2 }, "number of transmissions");
+    if !inner_fails {
+        let i = env::att(0);
+        assert!(i.ok && i.nfds == 1 && i.fds[0] == fd_of(&c_tx), "C14: the nested message does not carry exactly its own attachment");
+    }
+    let o = env::att(n - 1);
+    let o_pay = env::att_pay(n - 1);
+    assert!(o.ok && o.nfds == 2, "C14/C05: the enclosing message does not carry exactly its own two regions");
+    assert!(o.len == 17 && le64(&o_pay, 0) == 0 && o_pay[8] == 0x77 && le64(&o_pay, 9) == 1, "C14/C05: region indices of the enclosing message");
+    assert!(ipc::verif_hooks::serialization_tables_len() == (0, 0), "C14: side tables not empty after the sends");
+    drop((tx, rx, via_tx, via_rx, c_tx, c_rx, ra, rb));
+    assert!(env::nopen() == 0 && env::nmapped() == 0 && !env::bad_close(), "C11/C14: descriptors or mappings left after everything was dropped");
+    crate::reach_end!();
+}
+
 harnesses! {
+    #[unwind(8)] fn ser_nested_regions_ok() { ser_nested_regions(false) }
+    #[unwind(8)] fn ser_nested_regions_inner_fails() { ser_nested_regions(true) }
     #[unwind(8)] fn ser_fail_visit0() { ser_fail(0) }
     #[unwind(8)] fn ser_fail_visit1() { ser_fail(1) }
     #[unwind(8)] fn ser_fail_visit2() { ser_fail(2) }
